@@ -1290,8 +1290,9 @@ class QARBF(StationaryKernelMixin, Kernel):
                 sk[:, :, t] = self.scale[t] * k0[:, :, i] * k0[:, :, j]
                 t += 1
         k = np.sum(sk, axis=-1)
-        print(self.scale)
         if eval_gradient:
+            if self.hyperparameter_scale.fixed:
+                return k, np.empty((X.shape[0], Y.shape[0], 0))
             return k, sk
         return k
 
